@@ -4,13 +4,13 @@ dump_tables (built from the working tree, tables reached by header / translation
 inclusion) writes every entry of the 13 tables; TLC (spec/TableTrace.tla) compares each of
 them with the arithmetic defined in spec/GF2m.tla from the primitive polynomials and checks
 that the dump is complete.  The domain is finite and enumerated completely."""
+import ast
 import json
 import os
 import re
 import subprocess
 import time
 
-import apicheck
 import vlib
 
 SPEC = os.path.join(vlib.SPEC, "TableTrace.tla")
@@ -19,10 +19,22 @@ NTABLES = 13
 
 
 def vmsgs(out):
-    """TLC pretty-prints long tuples over several lines: join them before parsing"""
-    norm = re.sub(r'<<\s*"VMSG",\s*(.*?)\s*>>',
-                  lambda m: '<<"VMSG", ' + re.sub(r"\s*\n\s*", " ", m.group(1)) + ">>", out, flags=re.S)
-    return apicheck.parse_vmsg(norm)
+    """TLC pretty-prints long tuples over several lines: join them before parsing.  A VMSG tuple
+    ends with >> at the end of a line (the context string may itself contain << >>).  Every
+    "VMSG" occurrence must be parsed: a message that cannot be read is never dropped silently."""
+    norm = re.sub(r'<<\s*"VMSG",\s*(.*?)\s*>>[ \t]*$',
+                  lambda m: '<<"VMSG", ' + re.sub(r"\s*\n\s*", " ", m.group(1)) + ">>", out, flags=re.S | re.M)
+    msgs = []
+    for m in re.finditer(r'^<<"VMSG", (.*)>>[ \t]*$', norm, flags=re.M):
+        try:
+            t = ast.literal_eval("(" + m.group(1) + ",)")
+            msgs.append({"line": t[0], "exec": t[1], "tags": t[2].split(","), "check": t[3], "codec": t[4], "ctx": t[5]})
+        except Exception:
+            continue
+    if len(msgs) != out.count('"VMSG"'):
+        raise vlib.Infra("could not parse every VMSG line of the TLC output (%d of %d):\n%s" % (
+            len(msgs), out.count('"VMSG"'), out[-2000:]))
+    return msgs
 
 
 def validate(pid, trace, mdir, verdict, replay_path):
@@ -102,6 +114,7 @@ def run(pid, tier):
 
 
 def replay(pid, path):
+    path = os.path.abspath(path)
     bdir = vlib.scratch(pid + "_replay")
     try:
         verdict = vlib.Verdict(pid)
